@@ -13,6 +13,7 @@ func init() {
 			{"R21.2", "Output: time order, schema = struct layout, sums then averages", ruleCandleOutput},
 			{"R21.3", "Accum: every row once into the candle of its own window", ruleCandlerAccum},
 			{"R22.2", "GetCandle returns the candle of the row's window", ruleGetCandle},
+			{"R31.3", "window membership never uses start + nominal duration", ruleNoNominalDurationArithmetic},
 		},
 	})
 	register(&Property{
@@ -25,6 +26,7 @@ func init() {
 			{"R21.1", "AddCandle fold", ruleCandleUpdate},
 			{"R22.2", "GetCandle returns the candle of the row's window", ruleGetCandle},
 			{"R21.2", "Output schema = struct layout, time order", ruleCandleOutput},
+			{"R31.3", "window membership never uses start + nominal duration", ruleNoNominalDurationArithmetic},
 		},
 	})
 	register(&Property{
@@ -35,6 +37,8 @@ func init() {
 		Rules: []Rule{
 			{"R31.1", "Truncate / Ceil / IsWithin agree on suffix handling and grid", ruleTimeframeTables},
 			{"R31.2", "the queryable timeframe divides the duration", ruleQueryableDivides},
+			{"R31.3", "the nominal duration is only compared with / divided by constants", ruleNoNominalDurationArithmetic},
+			{"R31.4", "calendar branches of Truncate/Ceil build boundaries from date fields, not by adding a duration", ruleCalendarBranchesUseCalendar},
 		},
 	})
 }
